@@ -862,7 +862,11 @@ impl<'p, 's, M: Matcher, W: WriteColor> Sink for StandardSink<'p, 's, M, W> {
         }
         if searcher.binary_detection().convert_byte().is_some() {
             if self.binary_byte_offset.is_some() {
-                return Ok(false);
+                // Don't print the line, but only stop the search once a
+                // match has been seen. Otherwise, binary data in a context
+                // line that precedes the first match would end the search
+                // with neither a match nor a "binary file matches" message.
+                return Ok(self.match_count == 0);
             }
         }
 
